@@ -1,43 +1,114 @@
 """C12 — mixed_edge_moral_graph: adjacency = collider-connectedness; nodes kept."""
+import itertools
 import graphs as gr
 
 PROP = "C12"
 RULE = ("every acyclic ADMG(n) and ancestral graph with undirected edges ANC(n) (all per-pair edge kinds), "
-        "n<=3 quick / n<=4 thorough, plus seeded random graphs n<=8; distinct by canonical graph; non-trivial = "
-        "the moral graph has an edge that is not an edge of the input skeleton")
+        "n<=3 quick / n<=4 thorough (quick adds DAG(4) and all bidirected-only / undirected-only graphs on 4 nodes), plus seeded "
+        "random graphs n<=8; every graph also as a MixedEdgeGraph from which edgeless layers are absent (all subsets); per graph all "
+        "disjoint (X,Y,Z) with |X|,|Y|<=2 for the criterion (20 sampled for random graphs); plain DAGs also against "
+        "networkx.moral_graph; distinct by (canonical graph, layers present); non-trivial = the moral graph has an edge that is "
+        "not an edge of the input skeleton")
 EXHAUSTIVE = {"quick": "all ADMG(n), ANC(n) n<=3", "thorough": "all ADMG(n), ANC(n) n<=4"}
 TRUSTED = ["networkx compose / connected_components / predecessors taken at face value"]
+SPOT_N = 10
 ASSUMPTIONS = ["default edge-type names", "int node labels (label families are C15's job)"]
+
+
+def queries(nodes, maxxy=2, rng=None, limit=None):
+    """all pairwise disjoint (X, Y, Z), X and Y non-empty with at most maxxy members, X < Y (the criterion is symmetric)"""
+    qs = []
+    nodes = list(nodes)
+    for rx in range(1, maxxy + 1):
+        for X in itertools.combinations(nodes, rx):
+            rest = [v for v in nodes if v not in X]
+            for ry in range(1, maxxy + 1):
+                for Y in itertools.combinations(rest, ry):
+                    if X > Y:
+                        continue
+                    rest2 = [v for v in rest if v not in Y]
+                    for Z in gr.subsets(rest2):
+                        qs.append([list(X), list(Y), Z])
+    if limit and len(qs) > limit:
+        qs = rng.sample(qs, limit)
+    return qs
+
+
+ALL_LAYERS = ["directed", "bidirected", "undirected"]
+
+
+def layer_variants(g):
+    """all three layers present, and every way of leaving out layers that carry no edge (the code branches on
+    `name in G.edge_types`)"""
+    empty = [name for name, k in (("directed", "D"), ("bidirected", "B"), ("undirected", "U")) if not g[k]]
+    for r in range(len(empty) + 1):
+        for drop in itertools.combinations(empty, r):
+            layers = [name for name in ALL_LAYERS if name not in drop]
+            if layers:
+                yield layers
+
+
+def with_layers(case, g, full=True):
+    """the case itself and its layer-absent variants (full=False: one variant chosen by the graph's shape)"""
+    vs = list(layer_variants(g))
+    if not full and len(vs) > 2:
+        vs = [vs[0], vs[1 + (len(g["D"]) + len(g["B"]) + 2 * len(g["U"])) % (len(vs) - 1)]]
+    for layers in vs:
+        c = dict(case)
+        if layers != ALL_LAYERS:
+            c["layers"] = layers
+            c["kind"] = case["kind"] + ":-" + "".join(n[0] for n in ALL_LAYERS if n not in layers)
+        yield c
 
 
 def gen_cases(tier, rng):
     nmax = 3 if tier == "quick" else 4
     for n in range(1, nmax + 1):
         for g in gr.enum_admg(n):
-            yield {"kind": "admg%d" % n, "g": g}
+            yield from with_layers({"kind": "admg%d" % n, "g": g, "qs": queries(g["V"]), "oracle": True}, g)
         for g in gr.enum_anc(n):
             if g["U"]:
-                yield {"kind": "anc%d" % n, "g": g}
+                yield from with_layers({"kind": "anc%d" % n, "g": g, "qs": queries(g["V"]), "oracle": True}, g)
+    if tier == "quick":
+        for g in gr.enum_dag(4):
+            yield from with_layers({"kind": "dag4", "g": g, "qs": queries(g["V"]), "oracle": True}, g, full=False)
+        # one-layer graphs on 4 nodes (paths of length >= 2 inside a single layer), every layer subset
+        for kinds, name in ((["none", "<->"], "bi4"), (["none", "--"], "un4")):
+            for g in gr.enum_class(4, kinds):
+                yield from with_layers({"kind": name, "g": g, "qs": queries(g["V"]), "oracle": True}, g)
     for i in range(300 if tier == "quick" else 3000):
         n = rng.randint(4, 8)
-        if rng.random() < 0.5:
+        r = rng.random()
+        if r < 0.35:
             g = gr.random_kinds_graph(rng, n, gr.ADMG_KINDS, p_edge=rng.choice([0.2, 0.35, 0.5]))
-        else:
+        elif r < 0.7:
             g = gr.random_kinds_graph(rng, n, gr.ANC_KINDS, p_edge=rng.choice([0.2, 0.35, 0.5]), pred=gr.ancestral_und_ok)
-        yield {"kind": "rand", "g": g}
+        elif r < 0.85:
+            g = gr.random_kinds_graph(rng, n, gr.DAG_KINDS, p_edge=rng.choice([0.3, 0.5]))
+        else:
+            g = gr.random_kinds_graph(rng, n, [rng.choice(["<->", "--"]), "none"], p_edge=rng.choice([0.3, 0.5]))
+        yield from with_layers({"kind": "rand", "g": g, "qs": queries(g["V"], rng=rng, limit=20), "oracle": n <= 5}, g)
 
 
 def encode(case):
-    return [0, gr.enc(case["g"])]
+    return [0 if case.get("oracle") else 1, gr.enc(case["g"]), case.get("qs", [])]
 
 
 def decode(case, v):
-    return {"nodes": v[0], "edges": v[1]}
+    return {"nodes": v[0], "edges": v[1], "crit": [r[0] for r in v[2]],
+            "oracle": [r[1] for r in v[2]] if case.get("oracle") else None}
+
+
+def is_plain_dag(g):
+    return not g["B"] and not g["U"] and not g["C"]
 
 
 def run_impl(case):
+    import networkx as nx
     from pywhy_graphs.networkx.algorithms.causal.mixed_edge_moral import mixed_edge_moral_graph
-    M, lab, inv = gr.to_mixed(case["g"], case)
+    from pywhy_graphs.networkx.algorithms.causal.m_separation import _anterior, m_separated
+    g = case["g"]
+    M, lab, inv = gr.to_mixed(g, case, layers=tuple(case.get("layers", ALL_LAYERS)))
     before = gr.snapshot(M)
     R = mixed_edge_moral_graph(M)
     after = gr.snapshot(M)
@@ -45,7 +116,45 @@ def run_impl(case):
            "edges": sorted(sorted((inv(a), inv(b))) for a, b in R.edges())}
     if before != after:
         out["mutated"] = True
+    if is_plain_dag(g):
+        Dg, lab2, inv2 = gr.to_digraph(g, case)
+        N = nx.moral_graph(Dg)
+        out["nx"] = [sorted(inv2(v) for v in N.nodes), sorted(sorted((inv2(a), inv2(b))) for a, b in N.edges())]
+    # the separation criterion, with the implementation's own pieces
+    crit, msep = [], []
+    for X, Y, Z in case.get("qs", []):
+        Xs, Ys, Zs = ({lab(v) for v in S} for S in (X, Y, Z))
+        ant = _anterior(M, Xs | Ys | Zs)
+        Gc = M.copy()
+        Gc.remove_nodes_from(set(Gc.nodes()) - ant)
+        H = mixed_edge_moral_graph(Gc)
+        H.remove_nodes_from(Zs)
+        reach = set()
+        for x in Xs:
+            reach |= nx.node_connected_component(H, x)
+        crit.append(int(not (reach & Ys)))
+        msep.append(int(bool(m_separated(M, Xs, Ys, Zs))))
+    out["crit"] = crit
+    out["msep"] = msep
     return out
+
+
+def compare(case, impl, model):
+    if "exc" in impl:
+        return "exception"
+    if impl.get("mutated"):
+        return "argument-mutated"
+    if model["oracle"] is not None and model["oracle"] != model["crit"]:
+        return "model-vs-oracle"
+    if impl["nodes"] != model["nodes"] or impl["edges"] != model["edges"]:
+        return "result"
+    if "nx" in impl and impl["nx"] != [impl["nodes"], impl["edges"]]:
+        return "networkx-moral_graph"
+    if impl["crit"] != model["crit"]:
+        return "criterion"
+    if impl["msep"] != impl["crit"]:
+        return "criterion-vs-m_separated"
+    return None
 
 
 def nontrivial(case, model):
@@ -55,11 +164,13 @@ def nontrivial(case, model):
 
 
 def key(case):
-    return gr.canon(case["g"])
+    return (gr.canon(case["g"]), tuple(case.get("layers", ALL_LAYERS)))
 
 
 def classify(case, impl, model):
     if "exc" in impl or impl.get("mutated"):
+        return None
+    if model["oracle"] is not None and model["oracle"] != model["crit"]:
         return None
     if impl["nodes"] == model["nodes"]:
         im = {tuple(e) for e in impl["edges"]}
@@ -71,5 +182,10 @@ def classify(case, impl, model):
 
 
 def shrink(case):
+    qs = case.get("qs", [])
+    if len(qs) > 1:
+        for q in qs:
+            yield dict(case, qs=[q])
     for h in gr.shrink_graph(case["g"]):
-        yield dict(case, g=h)
+        vs = set(h["V"])
+        yield dict(case, g=h, qs=[q for q in qs if all(v in vs for part in q for v in part)])
